@@ -30,7 +30,13 @@ def q_expect(v, want):
     if not isinstance(v, Num):
         return None
     q = v.q
-    if q is None or q == 'any' or (isinstance(q, tuple) and q[0] == 'partial'):
+    if Q.is_partial(q) and v.shape is not None and len(v.shape) == 1 and v.shape[0] is not None:
+        q = Q.from_partial(dict(q[1]), v.shape[0])        # entry-wise charges of a short concrete vector
+        if Q.is_partial(q) and v.shape[0].is_const() and len(q[1]) == int(v.shape[0].c):
+            w = Q.to_partial(want, v.shape[0])
+            if w is not None:
+                return all(Q.q_eq(q[1][k], w[k]) for k in w)
+    if q is None or q == 'any' or (isinstance(q, tuple) and q[0] in ('partial', 'lin2', 'cols')):
         return None
     if Q.is_lin(want) != Q.is_lin(q):
         return False
